@@ -1,4 +1,5 @@
 import HC.Conn.Inv
+import HC.Extracted.WsSeq
 /-!
 # C03 — exactly-once disconnect and access record; sends after close are no-ops
 
@@ -183,6 +184,48 @@ theorem http1_valid_send_ok (s : St) (i : Nat) (hp : s.cfg.proto = .h1) :
 /-- the application's exit on a closed stream does nothing but end the task (`if not self.closed` / `if self.closed: return`) -/
 theorem exit_after_close_noop (s : St) (i : Nat) (hc : (s.inst i).closed = true) : exitProg s i = [.markExited i] := by
   cases hk : (s.inst i).kind <;> simp [exitProg, hk, hc, httpExitClosedGuard, wsSendClosedGuard]
+
+/-! ### the connection is lost in the middle of one of the stream's own closing sequences
+
+A WebSocket stream answers and closes on its own in several places (404 / 400 to the handshake, 400 for data before the
+acceptance, 500 or close frame 1011 for an application that has finished, the echo of the client's close frame); each is a
+sequence of awaited steps, and during any of them the connection may be lost - the failed write of that very response, the
+reader's end, the idle timer - which makes the protocol call `handle(StreamClosed)` *inside* the await, after which the
+sequence runs on.  `HC.Extracted.WsSeq.wsClosingPaths` is every such path of the current source (`tools/extract_wsseq.py`),
+`HC.Stream.WsSeq.run` what a path does with the connection lost during its k-th await. -/
+section WsSequences
+open HC.Stream.WsSeq HC.Extracted.WsSeq
+
+/-- **exactly one disconnect, whichever await of a closing sequence the connection is lost in** (or in none): every path of
+    `WSStream.handle` / `WSStream.app_send` that closes the stream - started on an open stream with or without an application
+    (without, when it is the path of the `Request` itself) - ends with the stream closed, exactly one disconnect handed to the
+    application if there is one (none otherwise), and nothing handed over after it.  The only thing between the stream's own
+    disconnect and the one `handle(StreamClosed)` puts is the `closed` flag: a sequence that awaits a send with an application
+    waiting and the flag still down fails here -/
+theorem ws_sequences_disconnect_once :
+    ∀ p ∈ wsClosingPaths, ∀ a ∈ p.apps appPutStartsNone, ∀ loss ∈ p.losses,
+      (run loss { hasApp := a } p.steps).ok = true := by
+  have h : (wsClosingPaths.all (Path.holds appPutStartsNone)) = true := by decide
+  intro p hp a ha loss hl
+  have h1 := List.all_eq_true.mp h p hp
+  unfold Path.holds at h1
+  exact List.all_eq_true.mp (List.all_eq_true.mp h1 a ha) loss hl
+
+/-- … and the paths are there: a sequence that sends and then puts the disconnect itself (the 400 for data before the
+    acceptance), one that answers the `Request` (404 / 400), one that sends and then has the protocol close the stream (500,
+    close frame, echo of the client's close) -/
+theorem ws_sequences_cover :
+    (wsClosingPaths.any fun p => p.steps.contains .send && p.steps.contains (.put true)) = true ∧
+    (wsClosingPaths.any fun p => p.first && p.steps.contains .send) = true ∧
+    (wsClosingPaths.any fun p => p.steps.contains .send && p.steps.contains .tell) = true := by decide
+
+/-- what the obligation excludes: the 400 sent with the flag still down - the connection lost during the first send, the
+    application is handed a second disconnect after the first -/
+example : (run (some 0) { hasApp := true } [.assumeClosed false, .send, .send, .wait, .setClosed true, .assumeApp true, .put true, .spawnTell]).discs = 2 ∧
+    Path.holds true { root := "handle", first := false, steps := [.assumeClosed false, .send, .send, .wait, .setClosed true, .assumeApp true, .put true, .spawnTell] } = false ∧
+    Path.holds true { root := "handle", first := false, steps := [.assumeClosed false, .setClosed true, .send, .send, .wait, .setClosed true, .assumeApp true, .put true, .spawnTell] } = true := by decide
+
+end WsSequences
 
 /-! ### the hypotheses are satisfiable; witnesses -/
 
